@@ -173,7 +173,10 @@ class CoverpointModel(CoverItemBase):
         if self.parent.type_cg is None:
             return self.get_inst_coverage()
         else:
-            return self.get_inst_coverage()
+            # Coverage achieved by all instances: held by the corresponding 
+            # coverpoint of the type covergroup
+            idx = self.parent.coverpoint_l.index(self)
+            return self.parent.type_cg.coverpoint_l[idx].get_inst_coverage()
     
     def get_inst_coverage(self):
         if not self.coverage_calc_valid:
